@@ -4,12 +4,11 @@ CONSTANTS MAX_RETRIES = 120
           Objs <- MCObjs
           Attr <- MCAttr
           MaxGen = 6
-          MaxNet = 5
-          RankHigh = "A"
+          MaxNet = 4
+          RankHigh = "B"
           TrustMode = "mutual"
-          WithBad = TRUE
-          AlgoMode = "normal"
-INVARIANT TickManyOK
+          WithBad = FALSE
+          AlgoMode = "tie"
 INVARIANT Agreement
 INVARIANT AtMostOnce
 INVARIANT HalvesDisjoint
@@ -19,4 +18,5 @@ INVARIANT MutualTrust
 PROPERTY BadChangesNothing
 VIEW View
 CHECK_DEADLOCK FALSE
-CONSTRAINT Bound
+CONSTRAINT BoundReplay
+ACTION_CONSTRAINT EmitEdge
